@@ -627,7 +627,7 @@ func ruleSig2(c *Ctx, r *Reporter) {
 					if ls.mayHold(in, "lungo.Engine.mutex") {
 						problems = append(problems, "Engine.mutex may be held (inverts Stream.mutex -> Engine.mutex order)")
 					}
-					if kill == nil || !instrDominates(kill, in) {
+					if (kill == nil || !instrDominates(kill, in)) && !onlyCalledAfterKill(c, fn) {
 						problems = append(problems, "not preceded by tomb.Kill (a Commit could still send on the closed channel)")
 					}
 					if len(problems) == 0 {
@@ -699,10 +699,51 @@ func ruleSig2(c *Ctx, r *Reporter) {
 					}
 				}
 			}
+			if !paired && onlyCalledAfterKill(c, fn) {
+				r.ok(funcName(fn)+":closed=true", c.pos(in.Pos()), "shutdown path: only reached after tomb.Kill, the engine's broadcast set is dead")
+				return
+			}
 			r.check(paired, funcName(fn)+":closed=true", c.pos(in.Pos()), "cancel() is called in the same step (the stream is removed from the engine's broadcast set)",
 				"the stream is marked closed without cancel(): it stays registered in Engine.streams forever")
 			r.check(ls.mustHold(in, "lungo.Stream.mutex"), funcName(fn)+":closed=true locked", c.pos(in.Pos()), "under Stream.mutex", "closed is set without Stream.mutex")
 		})
 	}
 	r.guard(nClosed, 4, "closed=true stores in Stream methods")
+}
+
+
+// onlyCalledAfterKill: every static call site of fn (in package lungo) is dominated by a tomb.Kill call.
+func onlyCalledAfterKill(c *Ctx, fn *ssa.Function) bool {
+	sites := 0
+	okAll := true
+	for _, caller := range c.repoFuncs() {
+		if fnPkgPath(caller) != pkgLungo {
+			continue
+		}
+		var kills []ssa.Instruction
+		allInstrs(caller, func(in ssa.Instruction) {
+			if call, ok := in.(*ssa.Call); ok {
+				if f := calleeObj(&call.Call); f != nil && f.Pkg() != nil && f.Pkg().Path() == "gopkg.in/tomb.v2" && f.Name() == "Kill" {
+					kills = append(kills, in)
+				}
+			}
+		})
+		allInstrs(caller, func(in ssa.Instruction) {
+			ci, ok := in.(ssa.CallInstruction)
+			if !ok || staticFn(ci.Common()) != fn {
+				return
+			}
+			sites++
+			dom := false
+			for _, k := range kills {
+				if instrDominates(k, in) {
+					dom = true
+				}
+			}
+			if !dom {
+				okAll = false
+			}
+		})
+	}
+	return sites > 0 && okAll
 }
